@@ -217,17 +217,22 @@ func attestation(quote []byte) (*tpmpb.Attestation, error) {
 
 	// Attempt to decode as a raw SEV-SNP attestation.
 	// Get the raw quote and try to extract from the certificates.
-	if at, err := abi.ReportCertsToProto(quote); err == nil {
-		tpmat.TeeAttestation = &tpmpb.Attestation_SevSnpAttestation{SevSnpAttestation: at}
-		return tpmat, nil
+	// A certificate table whose entries point outside it is not handed to the parser at all.
+	if len(quote) < abi.ReportSize || extractsev.CheckCertTableBounds(quote[abi.ReportSize:]) == nil {
+		if at, err := abi.ReportCertsToProto(quote); err == nil {
+			tpmat.TeeAttestation = &tpmpb.Attestation_SevSnpAttestation{SevSnpAttestation: at}
+			return tpmat, nil
+		}
 	}
 	// Attempt to decode as just the SEV-SNP certificate table.
-	certs := new(abi.CertTable)
-	if err := certs.Unmarshal(quote); err == nil {
-		sev.Report = &spb.Report{Measurement: []byte{0}}
-		sev.CertificateChain = certs.Proto()
-		tpmat.TeeAttestation = &tpmpb.Attestation_SevSnpAttestation{SevSnpAttestation: sev}
-		return tpmat, nil
+	if extractsev.CheckCertTableBounds(quote) == nil {
+		certs := new(abi.CertTable)
+		if err := certs.Unmarshal(quote); err == nil {
+			sev.Report = &spb.Report{Measurement: []byte{0}}
+			sev.CertificateChain = certs.Proto()
+			tpmat.TeeAttestation = &tpmpb.Attestation_SevSnpAttestation{SevSnpAttestation: sev}
+			return tpmat, nil
+		}
 	}
 
 	// Attempt to decode as a raw TDX quote.
